@@ -223,7 +223,7 @@ def sany(module):
         shutil.rmtree(sd, ignore_errors=True)
 
 
-def go_test(pkg, run, env=None, timeout=900, race=False, tags="verif", count=1, real_go=False, extra=None):
+def go_test(pkg, run, env=None, timeout=900, race=False, tags="verif", count=1, real_go=False, extra=None, hostname=None):
     """Run a harness driver (a Go test in /verif/harness) against /repo's tree."""
     gobin = "go" if real_go else GO
     cmd = ["timeout", "-k", "10", str(timeout), gobin, "test", "-tags", tags, "-count=%d" % count,
@@ -233,6 +233,9 @@ def go_test(pkg, run, env=None, timeout=900, race=False, tags="verif", count=1, 
     if extra:
         cmd += extra
     cmd.append(pkg)
+    if hostname:
+        # the same driver on "another host": a private UTS namespace with a different host name
+        cmd = ["unshare", "--uts", "sh", "-c", 'hostname "$0" && exec "$@"', hostname] + cmd
     e = go_env(env)
     t0 = time.time()
     p = subprocess.run(cmd, cwd=HARNESS, env=e, stdout=subprocess.PIPE, stderr=subprocess.STDOUT,
